@@ -16,17 +16,22 @@ Actors
   worker*; the model has one slot for it (`wpc … work`) and counts in the ghost `clash` how often
   a second one was started while the slot was taken (theorem `single_worker`: never).  After
   `runNum := 0` a worker has no local data left; such *tail* workers are counted per program
-  counter (`tRecheck tRun tSpawn tCas`) – any number of them.
-* **closers** – any number of `Close` calls, counted per program counter (no local data).
+  counter (`tRecheck tRun tSpawn`) – any number of them.
+* **closers** – any number of `Close` calls.  Those that have not yet tried their CAS are counted
+  (`cCas`); the one call whose CAS `active → closing` succeeds (at most one: `state` never returns
+  to `active`, theorem `C17_single_closer`) has a slot with its program counter `cwin` and the
+  locals of `drained` (`cShard`, `cN`).
 * environment: a new `Add`, a new `Close`, the connection dying.
 
 Ghost state (never read by a non-ghost assignment): getter ids and where each one is
-(`ignored lost skipped invoked notApp wbuf sent`), the FIFO `ring` of unconsumed trigger entries
-with the absolute counters `nRead nWritten`, `clash`, `emptyAdds`, `panics`, `closeOk closeErr`.
+(`ignored skipped invoked notApp wbuf sent`), the FIFO `ring` of unconsumed trigger entries
+with the absolute counters `nRead nWritten`, `clash`, `closeOk closeErr`, and `closeSnap`: the getters
+that were queued (in a shard, in `swap`, in the worker's hands) when the winning `Close` did its CAS.
 
-Quirks kept on purpose: `Add()` with no getters still triggers when the shard is empty;
-`idx` is an `int32` that wraps (`%` of a negative value is negative ⇒ index panic);
-`Close` stores `closed` as soon as it sees `trigger = 0`.
+Mirrored as they are: `Add()` with no getters returns before it touches the queue (`len(gts) == 0` is
+local, so such a call has no atomic step); the shard index is `uint32(idx) % uint32(size)` (`idx` is an
+`int32` that wraps; `S.idx` counts the increments); the worker does not touch `state`; `Close` polls
+`drained()` – every shard empty, read under its lock, then `trigger = 0` – and stores `closed` itself.
 -/
 namespace Netpoll.Shard
 
@@ -38,9 +43,8 @@ def closed : Nat := Netpoll.Gen.c_mux_closed
 def wrap32 (n : Nat) : Int :=
   if n % 4294967296 < 2147483648 then ((n % 4294967296 : Nat) : Int) else ((n % 4294967296 : Nat) : Int) - 4294967296
 
-/-- `int32(v) % size` as Go computes it (truncated); `none` = negative index ⇒ `q.locks[shard]` panics -/
-def shardOf (idx size : Nat) : Option Nat :=
-  if Int.tmod (wrap32 idx) (size : Int) < 0 then none else some (Int.tmod (wrap32 idx) (size : Int)).toNat
+/-- `int32(uint32(v) % uint32(size))` for the `int32` `v` that has been incremented `idx` times from 0 -/
+def shardOf (idx size : Nat) : Nat := (idx % 4294967296) % size
 
 /-- program counter of an `Add` call: the atomic step it performs next -/
 inductive APc
@@ -56,7 +60,6 @@ inductive APc
   | run      -- foreach: atomic.AddInt32(&q.runNum, 1) > 1 ?
   | spawn    -- runner.RunTask(nil, closure)
   | done
-  | panicked -- index out of range after idx wrapped
   deriving DecidableEq, Repr, Inhabited
 
 structure Adder where
@@ -87,14 +90,15 @@ inductive TPc
   | recheck  -- atomic.LoadInt32(&q.trigger) > 0 ?
   | run      -- q.foreach(): atomic.AddInt32(&q.runNum, 1) > 1 ?
   | spawn    -- runner.RunTask
-  | cas      -- atomic.CompareAndSwapInt32(&q.state, closing, closed)
   deriving DecidableEq, Repr, Inhabited
 
-/-- program counters of a `Close` call -/
+/-- program counters of a `Close` call (`lock … trig` are the steps of `drained`) -/
 inductive CPc
   | cas      -- CAS state active→closing
-  | state    -- loop condition: atomic.LoadInt32(&q.state) != closed
-  | trig     -- atomic.LoadInt32(&q.trigger) == 0 ?
+  | lock     -- drained: q.lock(shard)
+  | read     -- drained: n := len(q.getters[shard])
+  | unlock   -- drained: q.unlock(shard); n != 0 ⇒ return false (Close: runtime.Gosched(), drained again)
+  | trig     -- drained: return atomic.LoadInt32(&q.trigger) == 0
   | store    -- atomic.StoreInt32(&q.state, closed); return nil
   deriving DecidableEq, Repr, Inhabited
 
@@ -124,19 +128,18 @@ structure S where
   negNum : Int := 0
   shared : Nat := 0
   work : List Nat := []        -- part of q.swap not yet dealt
-  -- tail workers and closers (counter abstraction)
+  -- tail workers (counter abstraction)
   tRecheck : Nat := 0
   tRun : Nat := 0
   tSpawn : Nat := 0
-  tCas : Nat := 0
+  -- Close calls: before their CAS (counted); the one that won the CAS
   cCas : Nat := 0
-  cState : Nat := 0
-  cTrig : Nat := 0
-  cStore : Nat := 0
+  cwin : Option CPc := none
+  cShard : Nat := 0            -- drained: loop variable `shard`
+  cN : Nat := 0                -- drained: local `n`
   -- ghost
   nextId : Nat := 0
   ignored : List Nat := []     -- getters of an Add that saw state ≠ active
-  lost : List Nat := []        -- getters of an Add that panicked
   skipped : List Nat := []     -- dropped by deal: connection not active / after an Append error
   invoked : List Nat := []     -- getter called, in order
   notApp : List Nat := []      -- invoked but nothing appended (isNil or Append error)
@@ -144,10 +147,9 @@ structure S where
   nRead : Nat := 0
   nWritten : Nat := 0
   clash : Nat := 0             -- a second loop worker was started
-  emptyAdds : Nat := 0         -- Add() calls with no getter
-  panics : Nat := 0
   closeOk : Nat := 0           -- Close calls that returned nil
   closeErr : Nat := 0          -- Close calls that returned the "has been closed" error
+  closeSnap : List Nat := []   -- getters queued (shards, swap, worker) at the CAS of the Close that won it
   deriving Repr
 
 def init (size : Nat) : S :=
@@ -187,10 +189,7 @@ def stepAdder (s : S) (i : Nat) : Option S :=
       else some (setAdder { s with ignored := s.ignored ++ a.gts } i { a with pc := .done })
     | .idx =>
       if s.size = 0 then none   -- integer divide by zero: NewShardQueue(0, …) is out of scope
-      else match shardOf (s.idx + 1) s.size with
-        | none => some (setAdder { s with idx := s.idx + 1, panics := s.panics + 1, lost := s.lost ++ a.gts } i
-                          { a with pc := .panicked })
-        | some sh => some (setAdder { s with idx := s.idx + 1 } i { a with pc := .lock, shard := sh })
+      else some (setAdder { s with idx := s.idx + 1 } i { a with pc := .lock, shard := shardOf (s.idx + 1) s.size })
     | .lock =>
       if s.locks[a.shard]? = some 0 then
         some (setAdder { s with locks := s.locks.set a.shard 1 } i { a with pc := .append })
@@ -219,7 +218,6 @@ def stepAdder (s : S) (i : Nat) : Option S :=
               { a with pc := if s.runNum + 1 > 1 then .done else .spawn })
     | .spawn => some (setAdder (spawnWorker s) i { a with pc := .done })
     | .done => none
-    | .panicked => none
 
 /-- bookkeeping after `deal` returns: `negNum--`, then either the batched subtraction or the next entry -/
 def endDeal (s : S) : S :=
@@ -282,7 +280,7 @@ def stepTail (s : S) : TPc → Option S
   | .recheck =>
     if s.tRecheck = 0 then none
     else if s.trigger > 0 then some { s with tRecheck := s.tRecheck - 1, tRun := s.tRun + 1 }
-    else some { s with tRecheck := s.tRecheck - 1, tCas := s.tCas + 1 }
+    else some { s with tRecheck := s.tRecheck - 1 }   -- the closure returns
   | .run =>
     if s.tRun = 0 then none
     else if s.runNum + 1 > 1 then some { s with tRun := s.tRun - 1, runNum := s.runNum + 1 }
@@ -290,33 +288,51 @@ def stepTail (s : S) : TPc → Option S
   | .spawn =>
     if s.tSpawn = 0 then none
     else some (spawnWorker { s with tSpawn := s.tSpawn - 1 })
-  | .cas =>
-    if s.tCas = 0 then none
-    else if s.state = closing then some { s with tCas := s.tCas - 1, state := closed }
-    else some { s with tCas := s.tCas - 1 }
 
-def stepCloser (s : S) : CPc → Option S
+/-- the getters that are queued: in a shard, swapped out but not yet taken by `deal`, or in the worker's hands -/
+def queued (s : S) : List Nat :=
+  s.getters.flatten ++ (if s.wpc = .unlock ∨ s.wpc = .dealCall then s.swap else []) ++ s.work
+
+/-- `Close` enters `drained()`: `for shard := 0; shard < q.size; …` – the first lock, or with no shard the load of `trigger` -/
+def enterDrained (s : S) : S :=
+  { s with cShard := 0, cwin := if 0 < s.size then some .lock else some .trig }
+
+def stepCloser (s : S) (pc : CPc) : Option S :=
+  match pc with
   | .cas =>
     if s.cCas = 0 then none
-    else if s.state = active then some { s with cCas := s.cCas - 1, state := closing, cState := s.cState + 1 }
+    else if s.state = active then
+      some (enterDrained { s with cCas := s.cCas - 1, state := closing, closeSnap := queued s })
     else some { s with cCas := s.cCas - 1, closeErr := s.closeErr + 1 }
-  | .state =>
-    if s.cState = 0 then none
-    else if s.state ≠ closed then some { s with cState := s.cState - 1, cTrig := s.cTrig + 1 }
-    else some { s with cState := s.cState - 1, closeOk := s.closeOk + 1 }
+  | .lock =>
+    if s.cwin ≠ some .lock then none
+    else if s.locks[s.cShard]? = some 0 then some { s with locks := s.locks.set s.cShard 1, cwin := some .read }
+    else none
+  | .read =>
+    if s.cwin ≠ some .read then none
+    else match s.getters[s.cShard]? with
+      | none => none
+      | some g => some { s with cN := g.length, cwin := some .unlock }
+  | .unlock =>
+    if s.cwin ≠ some .unlock then none
+    else if s.cN ≠ 0 then some (enterDrained { s with locks := s.locks.set s.cShard 0 })   -- false; Gosched; drained again
+    else if s.cShard + 1 < s.size then
+      some { s with locks := s.locks.set s.cShard 0, cShard := s.cShard + 1, cwin := some .lock }
+    else some { s with locks := s.locks.set s.cShard 0, cShard := s.cShard + 1, cwin := some .trig }
   | .trig =>
-    if s.cTrig = 0 then none
-    else if s.trigger = 0 then some { s with cTrig := s.cTrig - 1, cStore := s.cStore + 1 }
-    else some { s with cTrig := s.cTrig - 1, cState := s.cState + 1 }   -- runtime.Gosched(); loop
+    if s.cwin ≠ some .trig then none
+    else if s.trigger = 0 then some { s with cwin := some .store }
+    else some (enterDrained s)                                                                -- false; Gosched; drained again
   | .store =>
-    if s.cStore = 0 then none
-    else some { s with cStore := s.cStore - 1, state := closed, closeOk := s.closeOk + 1 }
+    if s.cwin ≠ some .store then none
+    else some { s with cwin := none, state := closed, closeOk := s.closeOk + 1 }
+
+/-- a new `Add` call with `n` getters (ids `first …`).  `if len(gts) == 0 { return }` is local to the call:
+    an Add without getters returns without an atomic step -/
+def newAdder (first n : Nat) : Adder := { pc := if n = 0 then .done else .state, gts := List.range' first n }
 
 def step (s : S) : Act → Option S
-  | .add n =>
-    some { s with adders := s.adders ++ [{ pc := .state, gts := List.range' s.nextId n }],
-                  nextId := s.nextId + n,
-                  emptyAdds := if n = 0 then s.emptyAdds + 1 else s.emptyAdds }
+  | .add n => some { s with adders := s.adders ++ [newAdder s.nextId n], nextId := s.nextId + n }
   | .close => some { s with cCas := s.cCas + 1 }
   | .die => some { s with alive := false }
   | .adder i => stepAdder s i
@@ -339,13 +355,18 @@ def Act.isQueue : Act → Bool
   | .adder _ | .wk _ _ | .tail _ => true
   | _ => false
 
+/-- … or the Close call inside the critical section of a shard (`drained` between lock and unlock) -/
+def Act.isWork : Act → Bool
+  | .adder _ | .wk _ _ | .tail _ | .closer .read | .closer .unlock => true
+  | _ => false
+
 /-- no actor of the queue can move (new calls and the connection dying are the environment's) -/
 def Quiescent (s : S) : Prop := ∀ a, a.isEnv = false → step s a = none
 
-/-- no Add call and no worker can move (Close calls may still be polling) -/
-def QuiescentQ (s : S) : Prop := ∀ a, a.isQueue = true → step s a = none
+/-- no Add call and no worker can move, and no Close call holds a shard lock (Close calls may still be polling) -/
+def QuiescentQ (s : S) : Prop := ∀ a, a.isWork = true → step s a = none
 
-/-- in-contract executions: at least one shard, every Add carries a getter, fewer than 2³¹ Adds -/
-def InContract (s : S) : Prop := 0 < s.size ∧ s.emptyAdds = 0 ∧ s.idx < 2147483648
+/-- in-contract executions: at least one shard (`NewShardQueue(0, …)` divides by zero in `Add`) -/
+def InContract (s : S) : Prop := 0 < s.size
 
 end Netpoll.Shard
